@@ -6,7 +6,7 @@ import z3
 
 from . import step
 from .pathsym import PathSym
-from .universe import World
+from .universe import World, C_ONE, C_MULTI
 from .conc import build_pinned
 
 _done = {}
@@ -25,7 +25,7 @@ def script(w):
 
 
 def run_script(mode):
-    w = World(pids=["a", "ab", "b"], contents=[b"x", b"0123456789ab"], formats=[None, "c"], mode=mode, sym_dirs=True)
+    w = World(pids=["a", "ab", "b"], contents=[C_ONE, C_MULTI], formats=[None, "c"], mode=mode, sym_dirs=True)
     try:
         ps = PathSym(w.inv())
         ps.begin()
